@@ -67,3 +67,23 @@ def run_coro(coro):
                     asyncio.gather(*pending, return_exceptions=True))
         finally:
             loop.close()
+
+
+def as_violation(exc):
+    """An exception that escaped check_case: if it was raised inside the
+    library under test (socketio / engineio / bidict frames innermost) it is
+    a violation ("an API call on valid input raised"); if it was raised in
+    harness code it is a harness error and is re-raised as such."""
+    import traceback
+    tb = traceback.extract_tb(exc.__traceback__)
+    if not tb:
+        return None
+    inner = tb[-1]
+    fn = inner.filename
+    libs = (os.path.realpath(REPO_SRC), 'site-packages/engineio',
+            'site-packages/bidict', 'site-packages/msgpack')
+    if any(x in os.path.realpath(fn) for x in libs):
+        where = '%s:%s' % (os.path.basename(fn), inner.name)
+        return Violation('exception-%s@%s' % (type(exc).__name__, where),
+                         ''.join(traceback.format_exception(exc))[-1500:])
+    return None
